@@ -419,7 +419,7 @@ def clone_value(ex, x):
     if isinstance(x, Agg) and x.kind.startswith(FLAVOURS):
         return ex.call(f'<{x.kind}<K, N, E> as Clone>::clone', [Ref(Cell(x))])
     if isinstance(x, Agg):
-        if x.x is not None and x.kind not in ('HashMap', 'HashSet'):
+        if x.x is not None and x.kind not in ('HashMap', 'HashSet', 'Vec'):
             if x.x == 'zst':
                 return x
             raise Unsupported('clone of ' + x.kind)
@@ -430,7 +430,7 @@ def clone_value(ex, x):
 @prim('<Vec as Clone>::clone', '<String as Clone>::clone', '<VecDeque as Clone>::clone')
 def _(ex, a):
     v = ex.deref(a[0])
-    return Agg(v.kind, [clone_value(ex, x) for x in v.f])
+    return Agg(v.kind, [clone_value(ex, x) for x in v.f], x=({'cap': len(v.f)} if v.kind == 'Vec' else None))
 
 
 @prim('<K as Clone>::clone', '<E as Clone>::clone', '<N as Clone>::clone', '<usize as Clone>::clone',
@@ -1748,4 +1748,171 @@ def _(ex, a):
             j -= 1
         out.insert(j, it)
     v.f[:] = out
+    return UNIT()
+
+
+# ------------------------------------------------------------------ sub-slices (v[a..b]) and Vec capacity
+def _range_bounds(ex, rng, n):
+    k = rng.kind.split('::')[-1]
+    if k == 'RangeFull':
+        return 0, n
+    if k == 'RangeFrom':
+        return _cidx(rng.f[0]), n
+    if k == 'RangeTo':
+        return 0, _cidx(rng.f[0])
+    if k == 'Range':
+        return _cidx(rng.f[0]), _cidx(rng.f[1])
+    if k == 'RangeInclusive':
+        return _cidx(rng.f[0]), _cidx(rng.f[1]) + 1
+    if k == 'RangeToInclusive':
+        return 0, _cidx(rng.f[0]) + 1
+    raise Unsupported('range kind ' + rng.kind)
+
+
+def _is_range(x):
+    return isinstance(x, Agg) and x.kind.split('::')[-1] in ('RangeFull', 'RangeFrom', 'RangeTo', 'Range', 'RangeInclusive', 'RangeToInclusive')
+
+
+def _index_any(ex, a):
+    v = ex.deref(a[0])
+    if _is_range(a[1]):
+        base, off, n = _view(ex, a[0])
+        s, e = _range_bounds(ex, a[1], n)
+        if s > e or e > n:
+            raise RustPanic('slice index out of range')
+        return Ref(Cell(Agg('SliceView', [base, off + s, off + e])))
+    if isinstance(v, Agg) and v.kind == 'SliceView':
+        i = _cidx(a[1])
+        if i >= v.f[2] - v.f[1]:
+            raise RustPanic('index out of bounds')
+        return elem_ref(v.f[0], v.f[1] + i)
+    i = _cidx(a[1])
+    if i >= len(v.f):
+        raise RustPanic('index out of bounds')
+    return elem_ref(a[0], i)
+
+
+def _view(ex, r):
+    """(base ref to the Vec, offset, length) of a Vec / array / SliceView behind reference r"""
+    v = ex.deref(r)
+    if isinstance(v, Agg) and v.kind == 'SliceView':
+        return v.f[0], v.f[1], v.f[2] - v.f[1]
+    return r, 0, len(v.f)
+
+
+for _n in ('<Vec as Index>::index', '<Vec as IndexMut>::index_mut', '<VecDeque as Index>::index', '<slice as Index>::index',
+           '<slice as IndexMut>::index_mut'):
+    P[_n] = _index_any
+
+
+def _wrap_view(name, fn):
+    """make a slice primitive accept SliceView receivers by applying it to a temporary list and writing back"""
+    orig = P[name]
+
+    def w(ex, a):
+        v = ex.deref(a[0])
+        if isinstance(v, Agg) and v.kind == 'SliceView':
+            base, s, e = v.f
+            bl = ex.deref(base).f
+            tmp = Cell(Agg('Vec', bl[s:e]))
+            r = orig(ex, [Ref(tmp)] + list(a[1:]))
+            if len(tmp.v.f) != e - s:
+                raise Unsupported('length-changing operation on a sub-slice')
+            bl[s:e] = tmp.v.f
+            # references into the temporary are re-based onto the real vector
+            if isinstance(r, Agg) and r.kind == 'Option' and r.variant == 1 and isinstance(r.f[0], Ref) and r.f[0].cell is tmp:
+                p = r.f[0].path
+                r = Some(Ref(base.cell, tuple(base.path) + (('i', p[0][1] + s),) + tuple(p[1:])))
+            return r
+        return orig(ex, a)
+    P[name] = w
+
+
+for _n in ('slice::reverse', 'slice::swap', 'slice::sort', 'slice::sort_unstable', 'slice::contains', 'slice::first', 'slice::last', 'slice::get'):
+    _wrap_view(_n, None)
+
+
+def _len_any(ex, a):
+    return _view(ex, a[0])[2]
+
+
+P['slice::len'] = _len_any
+P['Vec::len'] = _len_any
+P['slice::is_empty'] = lambda ex, a: _view(ex, a[0])[2] == 0
+
+
+def _iter_any(ex, a):
+    base, off, n = _view(ex, a[0])
+    if base is a[0]:
+        return Agg('SliceIter', [a[0], 0, None])
+    return Agg('SliceIter', [base, off, off + n])
+
+
+P['slice::iter'] = _iter_any
+P['slice::iter_mut'] = _iter_any
+
+
+@prim('slice::to_vec', '<slice as ToOwned>::to_owned')
+def _(ex, a):
+    base, off, n = _view(ex, a[0])
+    return Agg('Vec', [clone_value(ex, x) for x in ex.deref(base).f[off:off + n]])
+
+
+# capacity follows std's growth policy (RawVec: amortised doubling, minimum non-zero capacity 4 for
+# elements up to 1 KiB); it is tracked lazily from the largest length seen
+def _cap_after(cap, need):
+    if need <= cap:
+        return cap
+    return max(cap * 2, need, 4)
+
+
+def _track_cap(v):
+    if v.x is None:
+        v.x = {'cap': 0}
+    v.x['cap'] = _cap_after(v.x.get('cap', 0), len(v.f))
+    return v.x['cap']
+
+
+_push_orig = P['Vec::push']
+
+
+def _push_cap(ex, a):
+    r = _push_orig(ex, a)
+    _track_cap(ex.deref(a[0]))
+    return r
+
+
+P['Vec::push'] = _push_cap
+
+
+@prim('Vec::capacity')
+def _(ex, a):
+    return _track_cap(ex.deref(a[0]))
+
+
+@prim('Vec::with_capacity')
+def _(ex, a):
+    return Agg('Vec', [], x={'cap': _cidx(a[0])})
+
+
+@prim('Vec::shrink_to_fit')
+def _(ex, a):
+    v = ex.deref(a[0])
+    v.x = {'cap': len(v.f)}
+    return UNIT()
+
+
+@prim('Vec::shrink_to')
+def _(ex, a):
+    v = ex.deref(a[0])
+    _track_cap(v)
+    v.x['cap'] = max(len(v.f), min(v.x['cap'], _cidx(a[1])))
+    return UNIT()
+
+
+@prim('Vec::reserve', 'Vec::reserve_exact')
+def _(ex, a):
+    v = ex.deref(a[0])
+    _track_cap(v)
+    v.x['cap'] = _cap_after(v.x['cap'], len(v.f) + _cidx(a[1]))
     return UNIT()
